@@ -137,6 +137,11 @@ structure Hand where
   lastUse : Nat
   now : Nat
   broken : Bool
+  /-- the key `Get` was called with -/
+  key : Key
+  /-- the key of the last `Return` of this connection (`none`: never returned) and the time of that call -/
+  retKey : Option Key
+  retAt : Nat
   deriving Repr, DecidableEq
 
 structure St where
@@ -145,6 +150,10 @@ structure St where
   fresh : Nat
   lastUse : ConnId → Nat
   broken : ConnId → Bool
+  /-- history variables, written by nobody but the `ret` op (the call of `Return`): the key and the time of the
+  last `Return(key, c)` of every connection.  No transition of the pool reads them. -/
+  retKey : ConnId → Option Key
+  retAt : ConnId → Nat
   chans : List Chan
   keys : List ChanId
   keysNil : Bool
@@ -167,6 +176,7 @@ inductive Who
 
 def init (cfg : Cfg) (progs : List (List Op)) : St :=
   { cfg := cfg, now := 0, fresh := 0, lastUse := fun _ => 0, broken := fun _ => false,
+    retKey := fun _ => none, retAt := fun _ => 0,
     chans := [], keys := [], keysNil := false, lock := none, ticker := true,
     tasks := progs.map (fun p => { pc := .idle, prog := p, held := [] }),
     closed := [], leaked := [], recvLog := [], handLog := [] }
@@ -244,7 +254,10 @@ def stepTask (s : St) (i : Nat) (t : Task) (p : Nat) : Option St :=
       | .ret =>
         match t.held with
         | [] => some (setTask s i t)
-        | (c, k) :: hs => some (setTask s i { t with pc := .rLock k c, held := hs })
+        | (c, k) :: hs =>
+          some { setTask s i { t with pc := .rLock k c, held := hs } with
+                 retKey := fun x => if x = c then some k else s.retKey x,
+                 retAt := fun x => if x = c then s.now else s.retAt x }
       | .use =>
         match t.held with
         | [] => some (setTask s i t)
@@ -290,7 +303,8 @@ def stepTask (s : St) (i : Nat) (t : Task) (p : Nat) : Option St :=
     if s.broken c then some (spawnCloser (setTask s i { t with pc := .gSel k h }) c)
     else if s.lastUse c + s.cfg.maxLife < s.now then some (spawnCloser (setTask s i { t with pc := .gSel k h }) c)
     else some { setTask s i { t with pc := .idle, held := t.held ++ [(c, k)] } with
-                handLog := { conn := c, lastUse := s.lastUse c, now := s.now, broken := s.broken c } :: s.handLog }
+                handLog := { conn := c, lastUse := s.lastUse c, now := s.now, broken := s.broken c,
+                             key := k, retKey := s.retKey c, retAt := s.retAt c } :: s.handLog }
   /- ---------------- Return ---------------- -/
   | .rLock k c =>
     if s.lock.isSome then none else
